@@ -1236,6 +1236,19 @@ func writerContract(c *an.Ctx, rule string) {
 			if isLenP(cnt) {
 				continue
 			}
+			// the length of something else (a filtered copy of the argument) is not the number of bytes consumed
+			lenOther := false
+			for _, src := range an.Sources(cnt) {
+				if call, ok := src.(*ssa.Call); ok {
+					if b, ok := call.Call.Value.(*ssa.Builtin); ok && b.Name() == "len" && call.Call.Args[0] != ssa.Value(param) {
+						lenOther = true
+					}
+				}
+			}
+			if lenOther {
+				bad = fmt.Sprintf("reports the length of %s instead of len(p) at %s: a writer that consumed all of p must say so, or bufio/io.MultiWriter treat the write as short and stop", an.Prov(cnt), p.Pos(ret.Pos()))
+				continue
+			}
 			if an.IsNilConst(errv) {
 				bad = fmt.Sprintf("returns a count other than len(p) (%s) with a nil error at %s", an.Prov(cnt), p.Pos(ret.Pos()))
 				continue
